@@ -33,7 +33,7 @@ CLAIMED = {
  "C03": dict(engine="factory", technique="TLC model checking of Factory.tla (all same-instant interleavings; F_C03_OnePlace/Counts/Quiescent) + the real runs compared with the model's outcome sets at every end of instant + TLC trace validation of recorded real factory runs (Trace_Factory.tla, T_C03_*)",
    text="Item conservation across the factory: in the design model every created item has exactly one place in every reachable state of every enumerated configuration under every same-instant ordering; for the implementation, every recorded run of a real factory (systematic families + seeded random configurations incl. fan-in/out, fleets, LIFO, combiner/splitter, conveyors) is folded into a ledger by TLC and compared at every end of instant with the independently observed contents of every edge, pallet and node reference and with the statistics counters.",
    ref="5 C03, 3.5, 4.4"),
- "C08": dict(engine="factory", technique="TLC model checking of Factory.tla (F_C08_Cap) + TLC trace validation (T_C08_Cap, T_C08_Offer, T_C08_DrawOnce, T_C08_DrawnAtPull, T_C08_OfferedWhenDue, T_C08_HeldOnlyIfFull) on recorded real runs with harness-supplied, logged delay callables",
+ "C08": dict(engine="factory", technique="TLC model checking of Factory.tla (F_C08_Cap) + TLC trace validation (T_C08_Cap, T_C08_Offer, T_C08_DrawOnce, T_C08_DrawnAtPull, T_C08_OfferedWhenDue, T_C08_HeldOnlyIfFull, T_C08_AfterSetup) on recorded real runs with harness-supplied, logged delay callables",
    text="Machine holds at most work_capacity items; every unit of work (machine item, splitter pallet, combiner pallet) is first offered downstream exactly at pull/draw time + the delay drawn once for it; judged on every event of every recorded real run and, for capacity, on every interleaving of the design model.",
    ref="5 C08"),
  "C09": dict(engine="factory", technique="TLC model checking of Factory.tla (F_C09_*) + TLC trace validation (T_C09_BlockingNoDiscard, T_C09_NonBlockingNow, T_C09_Decision, T_C09_DiscardByOne)",
